@@ -24,6 +24,7 @@ pub struct Agg {
     pub budget_exhausted: bool,
     pub panics: u64,
     pub max_alloc: u64,
+    pub timeouts_not_confirmed: u64,
 }
 
 fn add_map(dst: &mut BTreeMap<String, u64>, v: &Value) {
@@ -93,6 +94,7 @@ impl Agg {
             "budget_exhausted": self.budget_exhausted,
             "panics": self.panics,
             "max_alloc": self.max_alloc,
+            "timeouts_not_confirmed": self.timeouts_not_confirmed,
         })
     }
 
@@ -126,6 +128,7 @@ impl Agg {
         self.budget_exhausted |= v["budget_exhausted"].as_bool().unwrap_or(false);
         self.panics += v["panics"].as_u64().unwrap_or(0);
         self.max_alloc = self.max_alloc.max(v["max_alloc"].as_u64().unwrap_or(0));
+        self.timeouts_not_confirmed += v["timeouts_not_confirmed"].as_u64().unwrap_or(0);
     }
 }
 
